@@ -581,6 +581,9 @@ func (cs *ClientSession) Close() error {
 	return err
 }
 
+// abort closes the transport without waiting for work in flight.
+func (cs *ClientSession) abort() { _ = cs.mcpConn.Close() }
+
 // Wait waits for the connection to be closed by the server.
 // Generally, clients should be responsible for closing the connection.
 func (cs *ClientSession) Wait() error {
